@@ -15,9 +15,10 @@
    held (buildStorageProof succeeds).
 
    The resolution reverts (revertSuccessfulContracts / revertFailedContracts) are modelled
-   with the semantics of fixes/C01-revert-resolution.patch (status back to active,
-   resolution height NULL): at the snapshot's HEAD they fail / do nothing, which is property
-   C01's finding, not this one's.
+   as they are since /repo commit 694d73f "reverting a contract resolution restores the
+   active status" (status back to active, resolution height NULL; before it they failed /
+   did nothing — property C01's finding).  This file is a model-level argument: its row
+   updates are not replayed by the C06 harness (the C01 check ties them to the code).
 
    Hypotheses on the schedule, all explicit in [env_ok]:
      consensus   a formation is mined at most once and not after window_start; a proof or an
@@ -474,11 +475,11 @@ Proof.
     injection Hstep as <-.
     pose proof (env_ok_chain p w b Hs Hok He) as Hok'.
     destruct (apply_block_matches p (chain w) b c Hok' Hm) as [c' [Hap Hm']].
-    rewrite tip_cons in Hap.
+    rewrite (tip_cons b (chain w)) in Hap.
     unfold inv. cbn [chain row sent]. rewrite Hrow. cbn [bind]. rewrite Hap.
     split; [exact Hok'|]. split; [exists c'; split; [reflexivity|exact Hm']|].
     cbn [sent_of]. rewrite Hs. f_equal.
-    rewrite <- tip_cons. apply broadcast_agrees; assumption.
+    rewrite <- (tip_cons b (chain w)). apply broadcast_agrees; assumption.
   - (* Revert *)
     cbn [step] in Hstep. destruct (chain w) as [|b rest] eqn:Ech; [discriminate|].
     destruct (sent w) as [|s0 srest] eqn:Es; [discriminate|].
@@ -564,3 +565,13 @@ Definition blk_form : blk := {| b_form := true; b_rev := None; b_proof := false;
 Definition blk_proof : blk := {| b_form := false; b_rev := None; b_proof := true; b_missed := false |}.
 Definition demo_schedule : list estep :=
   [Mine blk_form; Mine blk0; Mine blk0; Mine blk_proof; Revert; Mine blk0; Mine blk_proof; Mine blk0].
+
+(* every row the lifecycle produces satisfies the invariant wf1 the selection theorems assume *)
+Lemma v1_rows_wf : forall p tr w,
+  run p (init_world p) tr = Some w -> exists c, row w = Ok c /\ wf1 c.
+Proof.
+  intros p tr w Hrun.
+  destruct (run_inv p tr _ w (inv_init p) Hrun) as [_ [[c [Hrow Hm]] _]].
+  exists c. split; [exact Hrow|]. destruct Hm as [_ [_ [_ [_ [_ [Hcr _]]]]]].
+  unfold wf1. rewrite Hcr. discriminate.
+Qed.
